@@ -160,3 +160,29 @@ class SymVec:
         if name == 'copy':
             return self.copy()
         raise Unsupported(f'numpy function {name} on an abstract vector')
+
+
+class SymRows:
+    """a matrix whose rows are abstract vectors (W[j], W[j, :], grad[idx, :])"""
+    dtype = np.dtype('float64')
+    ndim = 2
+
+    def __init__(self, gram, prefix, n_rows):
+        self.gram, self.prefix, self.n_rows = gram, prefix, n_rows
+
+    @property
+    def shape(self):
+        raise Unsupported('shape of an abstract matrix')
+
+    def __getitem__(self, idx):
+        if isinstance(idx, tuple):
+            if len(idx) != 2 or idx[1] != slice(None):
+                raise Unsupported(f'abstract matrix indexed with {idx}')
+            idx = idx[0]
+        i = int(idx)
+        if not -self.n_rows <= i < self.n_rows:
+            raise IndexError(f'row {i} out of range for {self.prefix} with {self.n_rows} rows')
+        return self.gram.gen(f'{self.prefix}{i % self.n_rows}')
+
+    def __array_function__(self, func, types, args, kwargs):
+        raise Unsupported(f'numpy function {func.__name__} on an abstract matrix')
